@@ -370,7 +370,15 @@ def models(draw, max_vars=4, allow=FULL_EXACT, max_cons=3, max_lcons=2, with_obj
         for i in draw(st.lists(st.integers(0, nv - 1), max_size=min(nv, 3), unique=True)):
             lin[i] = draw(st.sampled_from(COEFS))
         expr = None
-        if draw(st.booleans()):
+        if "if" in allow and draw(st.integers(0, 7)) == 0:
+            # a one-sided use of an if-then-else whose branches are (shifted) variables with overlapping ranges: the condition then
+            # needs both directions of its reification although the result is only bounded from one side
+            c = logical(ctx, 1)
+            a, b = leaf(ctx), leaf(ctx)
+            e = E(("if", c.t, a.t, b.t), 1, max(a.res, b.res), a.isint and b.isint, a.nbprod or b.nbprod or c.nbprod, a.ops | b.ops | c.ops | {"if"})
+            note(e)
+            expr = e.t
+        elif draw(st.booleans()):
             e = numeric(ctx, depth - 1, 2)
             note(e)
             expr = e.t
